@@ -82,6 +82,26 @@ theorem C12_pickle_load_partial (hF : FoaSpec) (hA : AddVarInv) (f : PickleFile)
   pickle_load_of_specs hF Inv f levels (fun m var _ j m' _ hJ h => hA m var _ j m' hJ h)
     (fun _ h => h) m hI hb hc hwf hr lm m1 hv hg hm
 
+/-- `load_target_inv`: whatever a successful `BDD.load` of a well-formed content does, the
+receiving manager keeps its invariant (reduced, ordered, unique — canonicity is C02 on `Inv`),
+its variable tables stay inverse of each other, and every node it had is still there
+unchanged.  Exact reference counts are NOT part of `Inv` (they belong to C06's counting
+invariant): for C12 they are checked by the correspondence (ledger) only. -/
+theorem C12_load_target_inv_of_specs (hF : FoaSpec) (hA : AddVarInv) (f : PickleFile) (levels : Bool)
+    (m : Mgr) (hI : Inv m) (hb : VarsBij m.tbl) (hc : m.ctx = false)
+    (hwf : PickleWF f) (hr : RootsOK f) (lm : List (Nat × Nat)) (m1 : Mgr)
+    (hv : loadVars levels f.vars.length f.vars [] m = (.ok lm, m1))
+    (hg : Contig m1.tbl) (hm : levels = false → MonoMap lm) :
+    ∃ roots' m', loadPickle f levels m = (.ok roots', m') ∧ Inv m' ∧ VarsBij m'.tbl ∧
+      (∀ u n, m.tbl.node? u = some n → m'.tbl.node? u = some n) := by
+  obtain ⟨r, m', e, I, B, _, N, _⟩ :=
+    C12_pickle_load_partial hF hA f levels m hI hb hc hwf hr lm m1 hv hg hm
+  exact ⟨r, m', e, I, B, N⟩
+
+/-- `roots_container`: list / dict shape (positions, keys) is what was given to `dump` -/
+theorem C12_roots_container {m : Mgr} {roots : Roots} {f : PickleFile}
+    (h : dumpPickle m roots = .ok f) : f.roots = roots := roots_container h
+
 /-- the writer: well-formed content, roots container stored as given, same functions by name -/
 theorem C12_pickle_dump_spec {m : Mgr} (hI : Inv m) (hv : VarsOK m.tbl) {roots : Roots} {f : PickleFile}
     (h : dumpPickle m roots = .ok f) :
